@@ -75,7 +75,7 @@ def showRes : Res → String
 def render (full : Bool) (s : State) (o : Out) : String :=
   let proto := s!"{showRes o.res}\tc={showOB o.contact}\trc={showOB o.reconn}\tst={showSt s.st} disc={showBool s.disc} now={s.now} ls={s.lastSuccess} re={s.reconnEntered} rt={s.rt}\tlkg={showMap s.lkg}"
   if full then
-    proto ++ s!"\tlsw={showMap s.lsw}\tpend={showPairs s.pending}\thw={showMap s.hw}\tw={showPairs o.writes}"
+    proto ++ s!"\tlsw={showMap s.lsw}\tpend={showPairs s.pending}\thw={showMap s.hw}\tw={showPairs o.writes}\tff={showBool o.flushFail}"
   else proto
 
 def parseOp (fs : List String) : Option Op :=
